@@ -8,7 +8,7 @@ applied in a scratch worktree of /repo (/root/scratch/seedrepo) and the checks r
 import subprocess, sys, os, json
 ROOT = os.path.dirname(os.path.dirname(os.path.abspath(__file__)))
 # one scratch pair per checkout of /verif (agents run this from their own worktrees concurrently), serialised by a lock
-_tag = "" if ROOT == "/verif" else "-" + os.path.basename(ROOT)
+_tag = ("" if ROOT == "/verif" else "-" + os.path.basename(ROOT)) + (("-" + os.environ["SEEDTEST_LANE"]) if os.environ.get("SEEDTEST_LANE") else "")
 REPO2, VERIF2 = "/root/scratch/seedrepo" + _tag, "/root/scratch/seedverif" + _tag
 import fcntl
 _lock = open("/root/scratch/.seedtest%s.lock" % _tag, "w"); fcntl.flock(_lock, fcntl.LOCK_EX)
